@@ -17,6 +17,7 @@ THEOREMS = [
     "Ts.Collective.C12_saved_by_exactly_those",
     "Ts.Collective.C12_witness",
     "Ts.Collective.C12_witness_rng",
+    "Ts.Collective.C12_witness_skip_barrier_on_empty",
 ]
 BUDGET_S = (100, 900)
 RULE = ("jobs of W in {1,2,3,4} simulated ranks (threads; fake process group whose hub logs every collective and raises on a "
